@@ -182,6 +182,9 @@ def build(ctx, incdir):
     for t, v in LOOPT:
         for br in ("[%s]", "(%s)", "%s"):
             cases.append(("looptype-%s" % t, H + "for %s j in %s\n    G | 0\n" % (t, br % v), None))
+    # a range denotes integers: it is not a list of strings or of booleans
+    for t, rng in itertools.product(("str", "bool"), ("0:3", "1:4:2", "2:3")):
+        cases.append(("looptype-%s-range" % t, H + "for %s j in %s\n    G(j) | 0\n" % (t, rng), None))
     # include call faults (files created by the caller in incdir)
     inc = 'include "%s"\n' % os.path.join(incdir, "sub2.xbb")
     incp = 'include "%s"\n' % os.path.join(incdir, "subp.xbb")
